@@ -200,18 +200,23 @@ def run(chk):
         cols = [('n', 'integer'), ('x', 'number'), ('s', 'string'),
                 ('b', {'base': 'boolean', 'format': boolsp} if boolsp else 'boolean'),
                 ('d', {'base': 'date', 'format': 'yyyy-MM-dd'}), ('t', {'base': 'datetime', 'format': 'dd/MM/yyyy HH:mm:ss'})]
+        # a second boolean column with its own declared spelling
+        boolsp2 = rnd.choice([None, 'true|false', 'Y|N', '1|0', 'yes|no'])
+        cols.append(('b2', {'base': 'boolean', 'format': boolsp2} if boolsp2 else 'boolean'))
         tv, fv = (boolsp.split('|') if boolsp else ('true', 'false'))
+        tv2, fv2 = (boolsp2.split('|') if boolsp2 else ('true', 'false'))
         strs = ['plain', 'café', 'x y', '12']
-        data = [[1, 1.5, strs[0], True, datetime.datetime(2020, 2, 29), datetime.datetime(2020, 2, 29, 23, 59, 58)],
-                [None, None, None, None, None, None],
-                [-7, -0.25, strs[1], False, datetime.datetime(1999, 12, 31), datetime.datetime(2001, 1, 1, 0, 0, 0)],
-                [30, 2.0, strs[2], True, datetime.datetime(2031, 7, 4), datetime.datetime(2031, 7, 4, 5, 6, 7)]]
+        data = [[1, 1.5, strs[0], True, datetime.datetime(2020, 2, 29), datetime.datetime(2020, 2, 29, 23, 59, 58), False],
+                [None, None, None, None, None, None, None],
+                [-7, -0.25, strs[1], False, datetime.datetime(1999, 12, 31), datetime.datetime(2001, 1, 1, 0, 0, 0), True],
+                [30, 2.0, strs[2], True, datetime.datetime(2031, 7, 4), datetime.datetime(2031, 7, 4, 5, 6, 7), True]]
         cells = []
         for row in data:
             cells.append([None if row[0] is None else str(row[0]), None if row[1] is None else repr(row[1]),
                           row[2], None if row[3] is None else (tv if row[3] else fv),
                           None if row[4] is None else row[4].strftime('%Y-%m-%d'),
-                          None if row[5] is None else row[5].strftime('%d/%m/%Y %H:%M:%S')])
+                          None if row[5] is None else row[5].strftime('%d/%m/%Y %H:%M:%S'),
+                          None if row[6] is None else (tv2 if row[6] else fv2)])
         path, mdpath, md = write_case(wd, 'm%d' % tid, cols, cells, dl, hd, sp, enc, titles=ti)
         ev = {'tid': tid, 'ev': 'Load', 'kind': 'matrix', 'raised': 'none', 'names_ok': True, 'dtypes_ok': True, 'values_ok': True,
               'nulls_ok': True, 'rows_ok': True}
@@ -222,7 +227,7 @@ def run(chk):
             if ev['names_ok'] and ev['rows_ok']:
                 dt = {c: str(df[c].dtype) for c in df.columns}
                 ev['dtypes_ok'] = (dt['n'] == 'Int64' and dt['x'].startswith('float') and dt['s'] in ('string', 'str', 'object')
-                                   and dt['b'] == 'boolean' and dt['d'].startswith('datetime64') and dt['t'].startswith('datetime64'))
+                                   and dt['b'] == 'boolean' and dt['b2'] == 'boolean' and dt['d'].startswith('datetime64') and dt['t'].startswith('datetime64'))
                 ok = True
                 nulls = True
                 for i, row in enumerate(data):
@@ -241,7 +246,7 @@ def run(chk):
         except Exception as ex:
             ev['raised'] = '%s: %s' % (type(ex).__name__, str(ex)[:160])
         events.append(ev)
-        detail[tid] = {'metadata': md, 'cells': cells, 'dialect': [dl, enc, hd, sp, ti, boolsp]}
+        detail[tid] = {'metadata': md, 'cells': cells, 'dialect': [dl, enc, hd, sp, ti, boolsp], 'second_boolean_spelling': boolsp2}
         chk.coverage['replayed_cases'] += 1
         chk.count_case(('matrix', dl, enc, hd, sp, ti, boolsp), nontrivial=True)
         tid += 1
